@@ -17,6 +17,13 @@ macro_rules! multi_vs_single {
         let use_mask = $nd.bool();
         let m0 = $nd.bool();
         let m1 = $nd.bool();
+        multi_vs_single!($nd, $m, $s, $c, $T, $MI, $MO, $data, use_mask, m0, m1)
+    }};
+    // the mask is drawn by the caller: held CONSTANT over the calls of one stream (the property's premise)
+    ($nd:ident, $m:ident, $s:ident, $c:expr, $T:ty, $MI:expr, $MO:expr, $data:ident, $use_mask:expr, $m0:expr, $m1:expr) => {{
+        let use_mask: bool = $use_mask;
+        let m0: bool = $m0;
+        let m1: bool = $m1;
         let mb = [m0, m1];
         let mask: Option<&[bool]> = if use_mask { Some(&mb[..]) } else { None };
         let act0 = !use_mask || m0;
@@ -131,9 +138,12 @@ harnesses! {
     fn c11_ftio_ch1(nd) {
         let mk = |c| FftFixedInOut::<f64>::new(2, 3, 2, c).unwrap();
         let (mut m, mut s) = (mk(2), mk(1));
-        // two calls: the second exercises the per-channel overlap buffers
-        multi_vs_single!(nd, m, s, 1, f64, 2, 3, sym);
-        multi_vs_single!(nd, m, s, 1, f64, 2, 3, line);
+        // two calls with the SAME mask: the second exercises the per-channel overlap buffers
+        let use_mask = nd.bool();
+        let m0 = nd.bool();
+        let m1 = nd.bool();
+        multi_vs_single!(nd, m, s, 1, f64, 2, 3, sym, use_mask, m0, m1);
+        multi_vs_single!(nd, m, s, 1, f64, 2, 3, line, use_mask, m0, m1);
         forget(m); forget(s);
     }
     #[kani::unwind(12)]
@@ -156,6 +166,57 @@ harnesses! {
         let mk = |c| FftFixedIn::<f64>::new(2, 3, 4, 1, c).unwrap();
         let (mut m, mut s) = (mk(2), mk(1));
         multi_vs_single!(nd, m, s, 0, f64, 4, 6, line);
+        forget(m); forget(s);
+    }
+
+
+    // quick, concrete: first channel masked (empty slice), second active - the pattern that breaks
+    // "stop at the first inactive channel" style loops; symbolic-mask FixedIn variants are thorough
+    #[kani::unwind(26)]
+    fn c11_ffi_masked_first(nd) {
+        let mk = |c| FastFixedIn::<f64>::new(1.0, 1.0, PolynomialDegree::Nearest, 10, c).unwrap();
+        let (mut m, mut s) = (mk(2), mk(1));
+        let mut x1 = [0.0f64; 10];
+        crate::drive::fill_line(&mut x1[..], 500);
+        let e: [f64; 0] = [];
+        let mut o0 = [SENT; 20];
+        let mut o1 = [SENT; 20];
+        let mut p = [SENT; 20];
+        let rm = m.process_into_buffer(&[&e[..], &x1[..]], &mut [&mut o0[..], &mut o1[..]], Some(&[false, true]));
+        let rs = s.process_into_buffer(&[&x1[..]], &mut [&mut p[..]], None);
+        check!(matches!((&rm, &rs), (Ok(a), Ok(b)) if a == b), "C11.mask_transparent_counts[base]");
+        let mut eq = true;
+        let mut clean = true;
+        unroll32!(i, 20, {
+            if o1[i].to_bits() != p[i].to_bits() { eq = false; }
+            if o0[i].to_bits() != SENT.to_bits() { clean = false; }
+        });
+        check!(eq, "C11.channel_equals_single[base]");
+        check!(clean, "C11.masked_untouched[base]");
+        forget(m); forget(s);
+    }
+    #[kani::unwind(18)]
+    fn c11_sfi_masked_first(nd) {
+        probe::reset_flags();
+        let mk = |c| SincFixedIn::<f64>::new_with_interpolator(1.0, 1.0, SincInterpolationType::Nearest, probe::boxed64(2, 1), 5, c).unwrap();
+        let (mut m, mut s) = (mk(2), mk(1));
+        let mut x1 = [0.0f64; 5];
+        crate::drive::fill_line(&mut x1[..], 500);
+        let e: [f64; 0] = [];
+        let mut o0 = [SENT; 15];
+        let mut o1 = [SENT; 15];
+        let mut p = [SENT; 15];
+        let rm = m.process_into_buffer(&[&e[..], &x1[..]], &mut [&mut o0[..], &mut o1[..]], Some(&[false, true]));
+        let rs = s.process_into_buffer(&[&x1[..]], &mut [&mut p[..]], None);
+        check!(matches!((&rm, &rs), (Ok(a), Ok(b)) if a == b), "C11.mask_transparent_counts[base]");
+        let mut eq = true;
+        let mut clean = true;
+        unroll32!(i, 15, {
+            if o1[i].to_bits() != p[i].to_bits() { eq = false; }
+            if o0[i].to_bits() != SENT.to_bits() { clean = false; }
+        });
+        check!(eq, "C11.channel_equals_single[base]");
+        check!(clean, "C11.masked_untouched[base]");
         forget(m); forget(s);
     }
 
